@@ -41,6 +41,10 @@ SING = [
     ("sin(x)/(x*(a + tau))", [("x", "0", "1/(a + tau)")]),
     ("x/(exp(x) - 1) + a/y", [("x", "0", "1 + a/y")]),
     ("y*sin(x)/(x*tau) + a", [("x", "0", "y/tau + a")]),
+    ("(x - a)/(exp(x - a) - 1)", [("x", "a", "1")]),
+    ("tau*(x - a)/(1 - exp(-(x - a)/tau))", [("x", "a", "tau*tau")]),
+    ("sin(x - tau)/(x - tau)", [("x", "tau", "1")]),
+    ("sin(y)/(y - pi)", [("y", "pi", "-1")]),
     ("1/x", []),
     ("y/(x - 1)", []),
     ("x*y + exp(-x)", []),
@@ -61,6 +65,9 @@ def tasks(tier, seed):
         text = HEADER + f"s = {e}\ndx_dt = -s\ndy_dt = x - y\n"
         out.append({"family": "SING", "id": e, "text": text, "opts": {"points": pts, "expr": e}})
     out.append({"family": "SING", "id": "multi-component:k*x/(exp(x) - 1)", "text": MULTI, "opts": {"points": [("x", "0", "k")], "expr": "k*x/(exp(x) - 1)"}})
+    clamp = "parameters(F=2.0, R=4.0, T=0.5, V=1.0)\nstates(m=0.1)\nvfrt = V*F/(R*T)\ng = vfrt/(exp(vfrt) - 1)\ns = g\ndm_dt = s - m\n"
+    full = "parameters(F=2.0, R=4.0, T=0.5)\nstates(V=1.0, m=0.1)\nvfrt = V*F/(R*T)\ng = vfrt/(exp(vfrt) - 1)\ns = g\ndV_dt = -2*s\ndm_dt = s - m\n"
+    out.append({"family": "SING", "id": "history:clamp-then-full", "text": full, "opts": {"points": [("V", "0", "1", "Not(Eq(R*T, 0))")], "expr": "vfrt/(exp(vfrt) - 1)", "preload": clamp}})
     if tier != "quick":
         for p in families.corpus(["lorentz.ode", "fitzhughnagumo.ode"]):
             out.append(dict(p, opts={"points": [], "expr": None}))
@@ -72,6 +79,11 @@ def work(task):
     m, ode = checks.load_all(prog, task["text"])
     if ode is None:
         return prog.result()
+    if task["opts"].get("preload"):
+        try:   # an earlier model in the same process with the same intermediate but no state dependence
+            checks.pipeline.load(task["opts"]["preload"]).remove_singularities()
+        except Exception as e:
+            prog.skip("preload", str(e))
     try:
         ode2 = ode.remove_singularities()
     except Exception as e:
@@ -106,8 +118,9 @@ def work(task):
         # (2) on each singular point: the stated limit
         if fn == "monitor_values" and "s" in i1 and pts:
             b = i1["s"]
-            for st, point, lim in pts:
-                pv = c.real(Evaluator(c, None).ev(parse_expr(point)))
+            for pt in pts:
+                st, point, lim = pt[0], pt[1], pt[2]
+                pv = c.real(Evaluator(c, m).ev(parse_expr(point)))
                 lim_ast = parse_expr(lim)
                 ev = Evaluator(c, m)
                 try:
@@ -118,7 +131,10 @@ def work(task):
                 label = f"numpy|monitor_values|s|at-{st}={point}"
                 ge = (lambda inputs, b=b: v1.concrete("monitor_values", inputs)[b])
                 re_ = checks.ref_eval_factory(m, lim_ast)
-                prog.eq(label, ev.dom + [c.inp(f"s_{st}") == pv], r1[0][b], lt, gen_eval=ge, ref_eval=re_,
+                assume = []
+                if len(pt) > 3:   # definedness of the parts of the expression that are not singular there
+                    assume = [c.boolean(Evaluator(c, m).ev(parse_expr(pt[3])))]
+                prog.eq(label, ev.dom + assume + [c.inp(f"s_{st}") == pv], r1[0][b], lt, gen_eval=ge, ref_eval=re_,
                         what=f"value on the removable singularity {st}={point} vs the limit {lim}")
     prog.nontrivial = bool(pts)
     return prog.result()
